@@ -57,12 +57,16 @@ def mesh_faults(rng, L, limit):
     out = []
     import copy
     for (i, j) in pos:
-        for kind in ("delete", "duplicate") + tuple(k for k, _ in BAD_TOKENS):
+        for kind in ("delete", "duplicate", "plus_one", "minus_one") + tuple(k for k, _ in BAD_TOKENS):
             M = copy.deepcopy(L)
             if kind == "delete":
                 del M[i][j]
             elif kind == "duplicate":
                 M[i].insert(j, M[i][j])
+            elif kind in ("plus_one", "minus_one"):
+                if not L[i][j].isdigit():
+                    continue
+                M[i][j] = str(max(0, int(L[i][j]) + (1 if kind == "plus_one" else -1)))
             else:
                 M[i][j] = dict(BAD_TOKENS)[kind]
             numeric = L[i][j].replace(".", "").replace("e-", "").replace("-", "").isdigit() and not (L[i][0] in ("POINTS", "CELLS", "CELL_TYPES", "CELL_DATA", "FIELD", "cell_type_id") and j == 0)
@@ -77,6 +81,11 @@ def mesh_faults(rng, L, limit):
     for _ in range(6):
         perm = secs[:]; rng.shuffle(perm)
         out.append(("sections_reordered", render_lines([l for s in perm for l in s]), None))
+    for i, l in enumerate(L):
+        if i > 0 and L[i - 1] and L[i - 1][0] == "CELLS" or (len(l) > 6 and l[0].isdigit() and int(l[0]) == len(l) - 1 and all(x.isdigit() for x in l)):
+            if len(l) > 6 and l[0].isdigit() and int(l[0]) == len(l) - 1:
+                M = copy.deepcopy(L); M[i] = [str(int(l[0]) - 1)] + l[1:-1]
+                out.append(("record_one_short_count_adjusted", render_lines(M), None))
     out.append(("empty_cell_record", render_lines([(["0", " ", " "] if (l and i > 0 and L[i - 1] and L[i - 1][0] == "CELLS") else l) for i, l in enumerate(L)]), None))
     text = render_lines(L)
     # truncation at every token boundary and every 64th byte
@@ -231,7 +240,7 @@ def classify(out):
 
 def run(ck):
     quick = ck.tier == "quick"
-    ck.cov["rule"] = ("mesh files (1-2 small closed cells, layout of data/input_meshes) and parameter files with systematic single-token faults at every token position (deleted, duplicated, out-of-range, negative, huge, overflowing, non-numeric, zero, fractional), sections removed / header removed / reordered, empty cell record, truncation at every token boundary and every 64th byte, random byte strings and byte flips, long runs; XML: every element emptied / non-numeric / overflowing / negative / huge / comment before text / removed / self-closing / unclosed, sections removed or emptied, truncation every 64 bytes, byte flips; each through mesh_reader or parameter_reader and a sample through the complete start-up; plain build for the outcome class (60 s, 6 GB), ASan+UBSan build for memory errors; non-trivial = files that were rejected")
+    ck.cov["rule"] = ("mesh files (1-2 small closed cells, layout of data/input_meshes) and parameter files with systematic single-token faults at every token position (deleted, duplicated, incremented, decremented, out-of-range, negative, huge, overflowing, non-numeric, zero, fractional), cell records one integer short with the count adjusted, sections removed / header removed / reordered, empty cell record, truncation at every token boundary and every 64th byte, random byte strings and byte flips, long runs; XML: every element emptied / non-numeric / overflowing / negative / huge / comment before text / removed / self-closing / unclosed, sections removed or emptied, truncation every 64 bytes, byte flips; each through mesh_reader or parameter_reader and a sample through the complete start-up; plain build for the outcome class (60 s, 6 GB), ASan+UBSan build for memory errors; non-trivial = files that were rejected")
     ok = ck.proofs()
     rng = random.Random(ck.seed * 5471 + 17)
     plain = vlib.build_driver("io")
